@@ -37,13 +37,14 @@ PROP = dict(
         "supports and what a dictionary is; trees containing pruned/Merkle cells are covered by model = code only",
         "the value type of ProveKeyInHashmap is modelled as 'read valueBits bits' (tlb.Uint8/32/64, Bits256 in the "
         "harness); other decoders are C03/C05's subject",
-        "dictLookup (the TON dictionary lookup used in absent_key_errors / value_revealed) is a minimal model of the "
-        "label walk written for this property, not agent dict's decoder; the harness cross-checks it against the "
-        "library's own Hashmap decoder on every proof",
+        "absent_key_errors / value_revealed use a minimal lookup (dictLookup) on arbitrary trees; "
+        "value_revealed_dict / absent_key_errors_dict restate them against agent dict's HTree meaning and Hashmap "
+        "decoder for trees that are valid dictionaries",
     ],
     partial=[
-        "proof_boc (C01 round trip of the serialised proof) is not a theorem here: the correspondence compares the "
-        "PARSED proof bytes with the model's cell on every run, the byte layout belongs to C01",
+        "proof_boc is proved modulo ONE premise about the writer: the order in which SerializeBoc writes the proof's "
+        "cells is a valid layout whose row 0 unfolds to the proof (C01.order_valid: importCell/reorderCells are not "
+        "modelled); the correspondence compares the PARSED real proof bytes with the model's cell on every run",
         "prove_no_panic needs noSingleRef (no cell with exactly one ref): on a malformed fork with one ref "
         "ProveKeyInHashmap panics in Cursor.Ref(1) (modelled, compared; outside 'all dictionaries')",
     ],
@@ -60,7 +61,12 @@ PROP = dict(
                "limit; absent_key_errors - if the TON dictionary lookup of the key fails, ProveKeyInHashmap returns no "
                "proof; value_revealed - for a returned (value, proof): the lookup in the ORIGINAL finds a leaf starting "
                "with the value and the same lookup in the proof's child finds the same leaf data (the path is never "
-               "pruned); prove_no_panic. Tie, on every run: value bits and canonical table of the parsed proof bytes vs "
+               "pruned); prove_no_panic; value_revealed_dict / absent_key_errors_dict - the same in terms of agent dict's model "
+               "(C05): for the cell tree of ANY valid TON dictionary of any key width, the library's Hashmap decoder on the "
+               "proof's child returns exactly [(key, val)] with get key of the dictionary's meaning = some val, and an "
+               "absent key gets no proof; proof_boc - the bytes written for the proof (agent boc's writer model, C01) "
+               "parse back (C07 reader) to a table whose root is the Merkle-proof cell `03 hash0 depth0` and whose "
+               "table hashing gives the definition's hashes. Tie, on every run: value bits and canonical table of the parsed proof bytes vs "
                "the compiled model for every generated (dictionary, key) and (tree, path set); direct oracles on Go "
                "alone with the hash DEFINITION: committed hash/depth = original root's, child level-0 hash = committed, "
                "every pruned branch stores hash/depth of what it replaces, kept cells unchanged, WFExotic, value "
